@@ -297,12 +297,84 @@ def gen_histories(r, dx, n_params=2):
     out.append({"hkind": "copy", "attr": None, "hist": [["copy"]], "partner": "x"})
     if spec.family == "State" and cls != "CustomState":
         out.append({"hkind": "replace", "attr": None, "hist": [["replace"]], "partner": "x"})
+    out += gen_routes(r, dx)
     if cls in S.ALT_CLASSES:
         out.append({"hkind": "alt-entry", "attr": None, "hist": [], "partner": {"desc": dict(dx, via="alt")}})
     for mode in ("int", "np"):
         dn = numeric_twin(dx, mode)
         if json.dumps(dn) != json.dumps(dx):  # 2 == 2.0 in Python: compare the written form
             out.append({"hkind": "numeric-" + mode, "attr": None, "hist": [], "partner": {"desc": dn}})
+    return out
+
+
+def _max_id(d):
+    m = 0
+    if isinstance(d, list):
+        for e in d:
+            m = max(m, _max_id(e))
+    elif isinstance(d, dict):
+        if "cls" in d:
+            for k, v in d["args"].items():
+                if k.endswith("_id") and isinstance(v, int):
+                    m = max(m, v)
+                m = max(m, _max_id(v))
+        elif "set" in d:
+            m = max([m] + [e for e in d["set"] if isinstance(e, int)])
+        elif "dict" in d:
+            for _, v in d["dict"]:
+                m = max(m, _max_id(v))
+    return m
+
+
+def _extra_element(r, kind, fresh):
+    """an element with a fresh id that nothing refers to (added and removed again before the comparison)"""
+    d = S.gen_obj(r, kind, 1)
+    key = {"Lanelet": "lanelet_id", "TrafficSign": "traffic_sign_id", "TrafficLight": "traffic_light_id",
+           "Intersection": "intersection_id", "Area": "area_id", "StaticObstacle": "obstacle_id",
+           "EnvironmentObstacle": "obstacle_id"}[kind]
+    d["args"][key] = fresh
+    if kind == "Intersection":
+        for i, inc in enumerate(d["args"]["incomings"]):
+            inc["args"]["incoming_id"] = fresh + 1 + i
+    if kind == "StaticObstacle":
+        d["args"].pop("initial_shape_lanelet_ids", None)
+        d["args"].pop("initial_center_lanelet_ids", None)
+    return d
+
+
+def gen_routes(r, dx):
+    """CONSTRUCTION ROUTES of the two containers: the same content assembled through different sequences of public calls —
+    container level (scenario.add_objects) vs member level (scenario.lanelet_network.add_*), element by element vs the whole
+    network, another order of the road elements, an extra element added and removed again (through the scenario / through
+    its lanelet network, in all four combinations).  Every variant is compared with the standard build and with the
+    variant before it; the oracle demands equality (and equal hashes) whenever all public getters show identical values."""
+    cls = dx["cls"]
+    if cls not in ("Scenario", "LaneletNetwork"):
+        return []
+    fresh = _max_id(dx) + 1000
+    vias = []
+    if cls == "Scenario":
+        vias += [("route:member-level", {"elements": "member"}), ("route:single-objects", {"elements": "single"})]
+    vias.append(("route:shuffled", {"elements": "member", "order": r.randint(1, 10 ** 6)}))
+    vias.append(("route:cleanup-only", {"cleanup": True}))
+    kinds = ["Lanelet", "TrafficSign", "TrafficLight", "Intersection", "Area"] + (["StaticObstacle", "EnvironmentObstacle"] if cls == "Scenario" else [])
+    r.shuffle(kinds)
+    for kind in kinds[:3]:
+        for add, rem in (("scenario", "network"), ("network", "scenario"), ("scenario", "scenario"), ("network", "network")):
+            if cls == "LaneletNetwork" and (add, rem) != ("network", "network"):
+                continue
+            if r.random() < 0.5 and cls == "Scenario":
+                continue
+            ex = {"desc": _extra_element(r, kind, fresh), "add": add, "remove": rem}
+            fresh += 10
+            vias.append((f"route:add-remove-{kind}", {"extras": [ex], "cleanup": True}))
+    out, prev = [], None
+    for name, via in vias:
+        dy = dict(dx, via=via)
+        out.append({"hkind": name, "attr": None, "y_desc": dy, "hist": [], "partner": "x"})
+        if prev is not None:
+            out.append({"hkind": name, "attr": None, "y_desc": dy, "hist": [], "partner": {"desc": prev}})
+        prev = dy
     return out
 
 
